@@ -339,4 +339,315 @@ theorem leg_agree (cfg : Cfg) (hg : legGoodB cfg = true) (l : Leaf) (h : Hint)
         rw [hf] at hi
         simp at hi
 
+
+/-! ### D. sorting commutes with filtering -/
+
+theorem insertBy_perm {α : Type} (lt : α → α → Bool) (x : α) (l : List α) : (insertBy lt x l).Perm (x :: l) := by
+  induction l with
+  | nil => exact List.Perm.refl _
+  | cons y ys ih =>
+    simp only [insertBy]
+    split
+    · exact List.Perm.refl _
+    · exact (List.Perm.cons y ih).trans (List.Perm.swap x y ys)
+
+theorem isort_perm {α : Type} (lt : α → α → Bool) (l : List α) : (isort lt l).Perm l := by
+  induction l with
+  | nil => exact List.Perm.refl _
+  | cons x xs ih => exact (insertBy_perm lt x _).trans (List.Perm.cons x ih)
+
+/-- a strict weak order, as two Boolean laws -/
+structure SWO {α : Type} (lt : α → α → Bool) : Prop where
+  asym : ∀ a b, lt a b = true → lt b a = false
+  /-- "not greater" is transitive -/
+  ntrans : ∀ a b c, lt b a = false → lt c b = false → lt c a = false
+
+theorem insertBy_sorted {α : Type} (lt : α → α → Bool) (h : SWO lt) (x : α) (l : List α)
+    (hs : l.Pairwise (fun a b => lt b a = false)) : (insertBy lt x l).Pairwise (fun a b => lt b a = false) := by
+  induction l with
+  | nil => simp [insertBy]
+  | cons y ys ih =>
+    rw [List.pairwise_cons] at hs
+    simp only [insertBy]
+    cases hxy : lt x y
+    · simp only [Bool.false_eq_true, if_false]
+      rw [List.pairwise_cons]
+      refine ⟨?_, ih hs.2⟩
+      intro z hz
+      rcases List.mem_cons.mp ((insertBy_perm lt x ys).mem_iff.mp hz) with rfl | hz'
+      · exact hxy
+      · exact hs.1 z hz'
+    · simp only [if_true]
+      rw [List.pairwise_cons]
+      refine ⟨?_, List.pairwise_cons.mpr hs⟩
+      intro z hz
+      rcases List.mem_cons.mp hz with rfl | hz'
+      · exact h.asym _ _ hxy
+      · exact h.ntrans x y z (h.asym _ _ hxy) (hs.1 z hz')
+
+theorem isort_sorted {α : Type} (lt : α → α → Bool) (h : SWO lt) (l : List α) :
+    (isort lt l).Pairwise (fun a b => lt b a = false) := by
+  induction l with
+  | nil => simp [isort]
+  | cons x xs ih => exact insertBy_sorted lt h x _ ih
+
+/-- inserting in front of a sorted list whose head is already greater -/
+theorem insertBy_front {α : Type} (lt : α → α → Bool) (x : α) (l : List α) (h : ∀ z ∈ l, lt x z = true) :
+    insertBy lt x l = x :: l := by
+  cases l with
+  | nil => rfl
+  | cons y ys => simp [insertBy, h y (by simp)]
+
+theorem filter_insertBy {α : Type} (lt : α → α → Bool) (h : SWO lt) (p : α → Bool) (x : α) (l : List α)
+    (hs : l.Pairwise (fun a b => lt b a = false)) :
+    (insertBy lt x l).filter p = if p x then insertBy lt x (l.filter p) else l.filter p := by
+  induction l with
+  | nil => cases hp : p x <;> simp [insertBy, hp]
+  | cons y ys ih =>
+    rw [List.pairwise_cons] at hs
+    have ih' := ih hs.2
+    simp only [insertBy]
+    cases hxy : lt x y
+    · -- x goes somewhere after y
+      simp only [Bool.false_eq_true, if_false, List.filter_cons]
+      cases hpy : p y
+      · simp only [Bool.false_eq_true, if_false]
+        exact ih'
+      · simp only [if_true]
+        rw [ih']
+        cases hpx : p x
+        · simp
+        · simp only [if_true, insertBy, hxy, Bool.false_eq_true, if_false]
+    · -- x goes in front: everything in the list is greater than x
+      simp only [if_true]
+      have hall : ∀ z ∈ y :: ys, lt x z = true := by
+        intro z hz
+        rcases List.mem_cons.mp hz with rfl | hz'
+        · exact hxy
+        · -- ¬(z < y) and x < y, so x < z
+          cases hxz : lt x z
+          · have := h.ntrans y z x (hs.1 z hz') hxz
+            rw [hxy] at this; cases this
+          · rfl
+      cases hpx : p x
+      · simp [List.filter_cons, hpx]
+      · simp only [List.filter_cons, hpx, if_true]
+        symm
+        have : (if p y = true then y :: List.filter p ys else List.filter p ys) = (y :: ys).filter p := by
+          simp [List.filter_cons]
+        rw [this]
+        apply insertBy_front
+        intro z hz
+        exact hall z (List.mem_filter.mp hz).1
+
+/-- insertion sort under a strict weak order commutes with filtering (it is stable) -/
+theorem isort_filter {α : Type} (lt : α → α → Bool) (h : SWO lt) (p : α → Bool) (l : List α) :
+    isort lt (l.filter p) = (isort lt l).filter p := by
+  induction l with
+  | nil => rfl
+  | cons x xs ih =>
+    simp only [List.filter_cons, isort]
+    rw [filter_insertBy lt h p x _ (isort_sorted lt h xs)]
+    cases hpx : p x
+    · simp [ih]
+    · simp [isort, ih]
+
+/-- timestamp first (in the requested direction), key second -/
+def lexB (asc : Bool) (x : Int) (k : String) (y : Int) (k' : String) : Bool :=
+  (if asc then decide (x < y) else decide (y < x)) || (x == y && decide (k < k'))
+
+theorem lexB_asym (asc : Bool) (x y : Int) (k k' : String) : lexB asc x k y k' = true → lexB asc y k' x k = false := by
+  cases asc <;>
+    simp only [lexB, Bool.false_eq_true, if_false, if_true, Bool.or_eq_true, Bool.and_eq_true, decide_eq_true_eq,
+      beq_iff_eq, Bool.or_eq_false_iff, Bool.and_eq_false_iff, decide_eq_false_iff_not, beq_eq_false_iff_ne, ne_eq] <;>
+    (intro h
+     rcases h with h | ⟨h1, h2⟩
+     · exact ⟨by omega, Or.inl (by omega)⟩
+     · exact ⟨by omega, Or.inr (String.lt_asymm h2)⟩)
+
+theorem lexB_ntrans (asc : Bool) (x y z : Int) (k k' k'' : String) :
+    lexB asc y k' x k = false → lexB asc z k'' y k' = false → lexB asc z k'' x k = false := by
+  cases asc <;>
+    simp only [lexB, Bool.false_eq_true, if_false, if_true, Bool.or_eq_false_iff, Bool.and_eq_false_iff,
+      decide_eq_false_iff_not, beq_iff_eq, beq_eq_false_iff_ne, ne_eq] <;>
+    (intro h1 h2
+     obtain ⟨a1, a2⟩ := h1
+     obtain ⟨b1, b2⟩ := h2
+     refine ⟨by omega, ?_⟩
+     by_cases hzx : z = x
+     · right
+       have hy : y = x := by omega
+       rcases a2 with a2 | a2
+       · exact absurd hy a2
+       · rcases b2 with b2 | b2
+         · exact absurd (by omega) b2
+         · exact String.not_lt.mpr (String.le_trans (String.not_lt.mp a2) (String.not_lt.mp b2))
+     · exact Or.inl hzx)
+
+theorem recLt_eq_lexB (s : Slot) (hs : s ≠ .key) (asc : Bool) (a b : Rec) :
+    recLt s asc a b = lexB asc (ts s a) a.key (ts s b) b.key := by
+  cases s <;> first | exact absurd rfl hs | (cases asc <;> simp [recLt, lexB])
+
+theorem recLt_swo (s : Slot) (asc : Bool) : SWO (recLt s asc) := by
+  by_cases hs : s = .key
+  · subst hs
+    constructor
+    · intro a b
+      cases asc <;> simp only [recLt, Bool.false_eq_true, if_false, if_true, decide_eq_true_eq, decide_eq_false_iff_not] <;>
+        exact String.lt_asymm
+    · intro a b c
+      cases asc <;> simp only [recLt, Bool.false_eq_true, if_false, if_true, decide_eq_false_iff_not]
+      · intro h1 h2; exact String.not_lt.mpr (String.le_trans (String.not_lt.mp h2) (String.not_lt.mp h1))
+      · intro h1 h2; exact String.not_lt.mpr (String.le_trans (String.not_lt.mp h1) (String.not_lt.mp h2))
+  · constructor
+    · intro a b; rw [recLt_eq_lexB s hs, recLt_eq_lexB s hs]; exact lexB_asym asc _ _ _ _
+    · intro a b c; rw [recLt_eq_lexB s hs, recLt_eq_lexB s hs, recLt_eq_lexB s hs]; exact lexB_ntrans asc _ _ _ _ _ _
+
+theorem sortRecs_filter (s : Slot) (asc : Bool) (p : Rec → Bool) (l : List Rec) :
+    sortRecs s asc (l.filter p) = (sortRecs s asc l).filter p :=
+  isort_filter _ (recLt_swo s asc) p l
+
+
+/-! ### E. the two routes -/
+
+def passOf (cfg : Cfg) (g : Option Group) (r : Rec) : Bool :=
+  match g with | some g => evalGroup (evalLeaf cfg r.body) g | none => true
+
+def labOf (cfg : Cfg) (g : Option Group) (r : Rec) : List String :=
+  match g with | some g => labelsOf (evalLeaf cfg r.body) g | none => []
+
+theorem emit_eq (cfg : Cfg) (g lg : Option Group) (m : Nat) (rows : List Rec) :
+    emit cfg g lg m rows = capMax m ((rows.filter (passOf cfg g)).map (fun r => (r.key, labOf cfg lg r))) := rfl
+
+theorem ite_filter {α : Type} (c : Bool) (p : α → Bool) (l : List α) :
+    (if c = true then l.filter p else l) = l.filter (fun r => !c || p r) := by
+  cases c
+  · simp only [Bool.false_eq_true, if_false, Bool.not_false, Bool.true_or]
+    exact (List.filter_eq_self.mpr (fun _ _ => rfl)).symm
+  · simp
+
+theorem candidates_eq (cfg : Cfg) (h1 : cfg.lookupInDedupes = true) (h2 : cfg.unionDedupes = true)
+    (store : List Rec) (hints : List Hint) :
+    candidates cfg store hints = store.filter (fun r => hints.any (fun h => hintMatch h r)) := by
+  match hints with
+  | [] => simp [candidates]
+  | [h] => simp [candidates, lookupHint, h1]
+  | h :: h' :: hs => simp [candidates, h2]
+
+theorem pageOf_zero {α : Type} (l : List α) : pageOf 0 0 l = l := by simp [pageOf]
+
+theorem capMax_map {α β : Type} (f : α → β) (m : Nat) (l : List α) : (capMax m l).map f = capMax m (l.map f) := by
+  unfold capMax; split <;> simp [List.map_take]
+
+theorem pageOf_map {α β : Type} (f : α → β) (a b : Nat) (l : List α) : (pageOf a b l).map f = pageOf a b (l.map f) := by
+  unfold pageOf; split <;> simp [List.map_take, List.map_drop]
+
+/-- what the query asks of the two routes' shared machinery, as hypotheses:
+    paging on the same side of the predicate (or no paging), the ordering attribute checked (or
+    carried by every record), the window treated alike (or no window / not the key index) -/
+structure Aligned (cfg : Cfg) (store : List Rec) (q : Query) : Prop where
+  dedupIn : cfg.lookupInDedupes = true
+  dedupUnion : cfg.unionDedupes = true
+  paging : (cfg.bucketPagingAfterFilter = true ∧ cfg.scanPagingAfterFilter = true) ∨
+           (cfg.bucketPagingAfterFilter = false ∧ cfg.scanPagingAfterFilter = false ∧ q.from_ = 0 ∧ q.limit = 0)
+  attr : cfg.bucketChecksAttr = true ∨ ∀ r ∈ store, carries q.slot r = true
+  window : cfg.bucketWindowTimeOnly = true ∨ q.slot ≠ .key ∨ hasWindow q = false
+
+theorem inWindow_of_noWindow (q : Query) (h : hasWindow q = false) (r : Rec) : inWindow q r = true := by
+  simp only [hasWindow, Bool.or_eq_false_iff] at h
+  have h1 : q.fromT = none := by cases hq : q.fromT <;> simp_all
+  have h2 : q.toT = none := by cases hq : q.toT <;> simp_all
+  simp [inWindow, h1, h2]
+
+/-- the rows that survive the predicate are the same on both routes -/
+theorem rows_agree (cfg : Cfg) (store : List Rec) (q : Query) (g : Group) (hints : List Hint) (residual : Option Group)
+    (ha : Aligned cfg store q)
+    (hsound : ∀ r ∈ store, (hints.any (fun h => hintMatch h r) && passOf cfg residual r) = evalGroup (evalLeaf cfg r.body) g) :
+    let c0 := candidates cfg store hints
+    let c1 := if cfg.bucketChecksAttr then c0.filter (carries q.slot) else c0
+    let c2 := if hasWindow q && (!cfg.bucketWindowTimeOnly || q.slot != .key) then c1.filter (inWindow q) else c1
+    (sortRecs q.slot q.asc c2).filter (passOf cfg residual) =
+      (indexRead q store).filter (passOf cfg (some g)) := by
+  intro c0 c1 c2
+  have hc0 : c0 = store.filter (fun r => hints.any (fun h => hintMatch h r)) := candidates_eq cfg ha.dedupIn ha.dedupUnion store hints
+  have hc1 : c1 = c0.filter (fun r => !cfg.bucketChecksAttr || carries q.slot r) := ite_filter _ _ _
+  have hc2 : c2 = c1.filter (fun r => !(hasWindow q && (!cfg.bucketWindowTimeOnly || q.slot != .key)) || inWindow q r) :=
+    ite_filter _ _ _
+  have hir : indexRead q store =
+      ((sortRecs q.slot q.asc store).filter (carries q.slot)).filter (fun r => !(q.slot != .key) || inWindow q r) := by
+    unfold indexRead
+    simp only []
+    rw [sortRecs_filter]
+    exact ite_filter _ _ _
+  rw [hc2, hc1, hc0, hir, sortRecs_filter, sortRecs_filter, sortRecs_filter]
+  simp only [List.filter_filter]
+  apply List.filter_congr
+  intro r hr
+  have hrs : r ∈ store := (isort_perm _ store).mem_iff.mp hr
+  have hs := hsound r hrs
+  simp only [passOf] at hs ⊢
+  rw [← hs]
+  -- attribute
+  have hattr : (!cfg.bucketChecksAttr || carries q.slot r) = carries q.slot r := by
+    rcases ha.attr with h | h
+    · simp [h]
+    · simp [h r hrs]
+  -- window
+  have hwin : (!(hasWindow q && (!cfg.bucketWindowTimeOnly || q.slot != .key)) || inWindow q r) =
+      (!(q.slot != .key) || inWindow q r) := by
+    by_cases hk : q.slot = .key
+    · rcases ha.window with h | h | h
+      · simp [hk, h]
+      · exact absurd hk h
+      · simp [hk, h]
+    · have : (q.slot != Slot.key) = true := by simpa using hk
+      simp only [this, Bool.or_true, Bool.and_true, Bool.not_true, Bool.false_or]
+      cases hw : hasWindow q
+      · simp [inWindow_of_noWindow q hw r]
+      · simp
+  rw [hattr, hwin]
+  cases (hints.any fun h => hintMatch h r) <;> cases carries q.slot r <;> cases (!(q.slot != Slot.key) || inWindow q r) <;>
+    cases (match residual with | some g => evalGroup (evalLeaf cfg r.body) g | none => true) <;> rfl
+
+
+/-- the candidate rows of the bucket route, ordered (before offset / limit / residual) -/
+def rowsB (cfg : Cfg) (store : List Rec) (q : Query) (hints : List Hint) : List Rec :=
+  let c0 := candidates cfg store hints
+  let c1 := if cfg.bucketChecksAttr then c0.filter (carries q.slot) else c0
+  let c2 := if hasWindow q && (!cfg.bucketWindowTimeOnly || q.slot != .key) then c1.filter (inWindow q) else c1
+  sortRecs q.slot q.asc c2
+
+theorem filter_passNone (cfg : Cfg) (l : List Rec) : l.filter (passOf cfg none) = l := by
+  rw [List.filter_eq_self]; intro a _; rfl
+
+/-- `bucketExec`, written out -/
+theorem bucketExec_eq (cfg : Cfg) (store : List Rec) (q : Query) (g : Group) (hints : List Hint) (residual : Option Group) :
+    bucketExec cfg store q g hints residual =
+      if cfg.bucketPagingAfterFilter then
+        capMax q.maxResults ((pageOf q.from_ q.limit ((rowsB cfg store q hints).filter (passOf cfg residual))).map
+          (fun r => (r.key, labOf cfg (if cfg.labelReattach then some g else residual) r)))
+      else
+        capMax q.maxResults (((pageOf q.from_ q.limit (rowsB cfg store q hints)).filter (passOf cfg residual)).map
+          (fun r => (r.key, labOf cfg (if cfg.labelReattach then some g else residual) r))) := by
+  unfold bucketExec
+  simp only [emit_eq]
+  split
+  · rw [filter_passNone]; rfl
+  · rfl
+
+/-- `scanRoute` with a filter, written out -/
+theorem scanRoute_eq (cfg : Cfg) (store : List Rec) (q : Query) :
+    scanRoute cfg store q =
+      if cfg.scanPagingAfterFilter then
+        capMax q.maxResults ((pageOf q.from_ q.limit ((indexRead q store).filter (passOf cfg q.filter))).map
+          (fun r => (r.key, labOf cfg q.filter r)))
+      else
+        capMax q.maxResults (((pageOf q.from_ q.limit (indexRead q store)).filter (passOf cfg q.filter)).map
+          (fun r => (r.key, labOf cfg q.filter r))) := by
+  unfold scanRoute
+  simp only [emit_eq]
+  split
+  · rw [filter_passNone]; rfl
+  · rfl
+
 end Hv.Query
